@@ -240,4 +240,30 @@ theorem testRun_getElem? {F} [NumC F] (rnd : Nat → F) (k : TestKind) (xs : Lis
 
 end testev
 
+/-! ### histories on one evaluator object -/
+
+theorem runHist_append {D R : Type} (call : D → R × D) (pre post : List (HistOp D)) : ∀ d : D,
+    runHist call d (pre ++ post) =
+      ((runHist call d pre).1 ++ (runHist call (runHist call d pre).2 post).1,
+       (runHist call (runHist call d pre).2 post).2) := by
+  induction pre with
+  | nil => intro d; simp [runHist]
+  | cons op rest ih =>
+    intro d
+    cases op with
+    | mutate f => simp only [List.cons_append, runHist]; exact ih (f d)
+    | call =>
+      simp only [List.cons_append, runHist]
+      rw [ih]
+
+theorem runHist_length {D R : Type} (call : D → R × D) (ops : List (HistOp D)) : ∀ d : D,
+    (runHist call d ops).1.length = nCalls ops := by
+  induction ops with
+  | nil => intro d; rfl
+  | cons op rest ih =>
+    intro d
+    cases op with
+    | mutate f => simp only [runHist, nCalls]; exact ih (f d)
+    | call => simp only [runHist, nCalls, List.length_cons]; rw [ih]
+
 end Vita.C05
